@@ -39,6 +39,8 @@
    of the dicts (the result list is permuted; as a set it is fixed by C02_dfa / C02_nfa for valid automata). *)
 From GT Require Import Base.Prelude Base.Sort Model.DFA Model.NFA Model.Minimize Model.Iso Model.GNFA Model.Regexp Model.CFG
   Model.Chomsky Model.CYK Model.PDA Model.Simulate.
+From GT Require Model.CFGMisc Proofs.CFGMiscProofs.
+From GT Require Import Model.CFG.
 From GT Require Import Proofs.PartitionDefs Proofs.MinimizeFinal Proofs.PurityProofs.
 From GT Require Proofs.ChomskyEpsUnitProofs Properties.C04.
 From Coq Require Import Permutation.
@@ -229,6 +231,30 @@ Theorem C19_nfa_wf_perm : forall (N1 N2 : nfa nat),
   nfa_wf N1 -> nfa_wf N2.
 Proof. exact (fun N1 N2 => nfa_wf_perm N1 N2). Qed.
 
+(* ---- conversions outside the pipelines of C03-C10: their result is characterised by the argument alone (no choice is
+   involved), so every call yields the same language (Model/CFGMisc.v, Proofs/CFGMiscProofs.v) ---- *)
+Theorem C19_cfg_utilities_language : forall (G : cfg) (w : word),
+  (cfg_lang (CFGMisc.cfg_remove_inproductive G) w <-> cfg_lang G w) /\
+  (cfg_lang (CFGMisc.cfg_put_start_in_front G) w <-> cfg_lang G w) /\
+  ((forall r, In r (gR G) -> rrhs r <> [Tm (rvar r)]) -> (cfg_lang (CFGMisc.cfg_remove_useless_rules G) w <-> cfg_lang G w)).
+Proof.
+  intros G w. split; [|split].
+  - exact (CFGMiscProofs.remove_inproductive_lang G w).
+  - exact (CFGMiscProofs.put_start_in_front_lang G w).
+  - intro H. exact (CFGMiscProofs.remove_useless_rules_lang G w H).
+Qed.
+
+Theorem C19_productive_variables : forall (G : cfg) (A : nat),
+  In A (CFGMisc.cfg_productive_variables G) <-> exists w : word, derives G [Var A] (tword w).
+Proof. exact CFGMiscProofs.productive_sound_complete. Qed.
+
+Theorem C19_cfg_to_nfa_language : forall (eps geps : nat) (G : cfg) (N : nfa nat),
+  CFGMisc.cfg_to_nfa eps geps G = Some N -> cfg_wf G ->
+  (forall r, In r (gR G) -> forall x, rrhs r = [x] -> sname x <> geps) ->
+  nfa_wf N /\ In (gS G) (gV G) /\ ~ In eps (gSg G) /\
+  forall w, Forall (fun a => In a (gSg G)) w -> (nfa_lang N w <-> cfg_lang G w).
+Proof. exact CFGMiscProofs.cfg_to_nfa_lang. Qed.
+
 Print Assumptions C19_eclose_pick_independent.
 Print Assumptions C19_eclose_pick_independent_total.
 Print Assumptions C19_min_spec_unique.
@@ -251,3 +277,6 @@ Print Assumptions C19_dfa_wf_perm.
 Print Assumptions C19_nfa_accepts_same.
 Print Assumptions C19_nfa_accepts_perm.
 Print Assumptions C19_nfa_wf_perm.
+Print Assumptions C19_cfg_utilities_language.
+Print Assumptions C19_productive_variables.
+Print Assumptions C19_cfg_to_nfa_language.
